@@ -284,8 +284,10 @@ def run_shard(spec, res):
                 keep.append(canon)
                 res.case(["canonicalize", d, annotated], True)
                 res.count("judged:canonicalize")
-                if len(canon.variables) != len(e.variables):
-                    res.violation({"kind": "utility", "util": "canonicalize", "what": "renaming-not-consistent", "case": d, "annotated": annotated, "expr": repr(e)[:200], "result": repr(canon)[:200], "variables_before": sorted(e.variables), "variables_after": sorted(canon.variables)})
+                # (the variables that occur, by traversal: .variables may list more - C05 - e.g. the a of (b ^ 14 ^ a) ^ a)
+                occ = lambda t: {x.args[0] for x in t.leaf_asts() if x.op in ("BVS", "BoolS", "FPS", "StringS")}  # noqa: E731
+                if len(occ(canon)) != len(occ(e)):
+                    res.violation({"kind": "utility", "util": "canonicalize", "what": "renaming-not-consistent", "case": d, "annotated": annotated, "expr": repr(e)[:200], "result": repr(canon)[:200], "variables_before": sorted(occ(e)), "variables_after": sorted(occ(canon))})
                     continue
                 # map: injective, sort preserving, covers every variable leaf
                 leaves = {x.hash(): x for x in e.leaf_asts() if x.symbolic}
@@ -316,8 +318,8 @@ def run_shard(spec, res):
                 res.count("z3_status:" + st)
                 if st in ("neq", "sort"):
                     res.violation({"kind": "utility", "util": "canonicalize", "what": "not-equivalent-under-map", "case": d, "result": repr(canon)[:300], "assignment": wit})
-                if not all(v.startswith("canonical_") for v in canon.variables):
-                    res.violation({"kind": "utility", "util": "canonicalize", "what": "uncanonical-variable-left", "case": d, "observed": sorted(canon.variables)})
+                if not all(v.startswith("canonical_") for v in occ(canon)):
+                    res.violation({"kind": "utility", "util": "canonicalize", "what": "uncanonical-variable-left", "case": d, "observed": sorted(occ(canon))})
             elif kind == "ite_reloc":
                 w = rng.choice([1, 4, 8, 32])
                 g = G.Gen(rng, nvars=2, widths=[w], surface=False, allow_div=False)
